@@ -243,6 +243,23 @@ func genCrashScript(r *rand.Rand, id string, nops int) Script {
 		s.Steps = append(s.Steps, Step{Op: "reopen"}, Step{Op: "idle"})
 		return s
 	}
+	if r.Intn(6) == 0 {
+		// big transactions: several 40 kB values in one commit (more than 64 KiB in one wal batch)
+		s.NKeys = 3
+		for i := 0; i < 3+r.Intn(3); i++ {
+			st := Step{Op: "txn"}
+			for _, k := range r.Perm(3)[:2+r.Intn(2)] {
+				vid++
+				st.Puts = append(st.Puts, [2]int{k + 1, kvmap.BigBase + vid})
+			}
+			s.Steps = append(s.Steps, st)
+			for r.Float64() < flP {
+				s.Steps = append(s.Steps, Step{Op: "fl", N: 1})
+			}
+		}
+		s.Steps = append(s.Steps, Step{Op: "idle"})
+		return s
+	}
 	for i := 0; i < nops; i++ {
 		for r.Float64() < flP {
 			s.Steps = append(s.Steps, Step{Op: "fl", N: 1})
